@@ -1,0 +1,12 @@
+//go:build verif
+
+package transport
+
+import "io"
+
+// Exported shims for the verification harness (/verif). Add-only, compiled
+// only with -tags verif.
+
+func VerifCopyMsgWithLenHdr(m []byte) (*[]byte, error) { return copyMsgWithLenHdr(m) }
+func VerifCopyMsg(m []byte) *[]byte                    { return copyMsg(m) }
+func VerifReadMsgUdp(r io.Reader) (*[]byte, error)     { return readMsgUdp(r) }
